@@ -4,7 +4,9 @@ package peer
 
 import (
 	"context"
+	"errors"
 	"io"
+	"net"
 
 	"github.com/postalsys/muti-metroo/internal/identity"
 	"github.com/postalsys/muti-metroo/internal/protocol"
@@ -16,6 +18,7 @@ import (
 func C16InjectPeer(m *Manager, local, remote identity.AgentID, dialer bool, w io.Writer) *Connection {
 	ctx, cancel := context.WithCancel(context.Background())
 	c := &Connection{
+		conn:        c16NullConn{dialer: dialer},
 		LocalID:     local,
 		RemoteID:    remote,
 		isDialer:    dialer,
@@ -42,3 +45,20 @@ func C16RemovePeer(m *Manager, remote identity.AgentID) *Connection {
 	delete(m.peers, remote)
 	return c
 }
+
+// c16NullConn is the transport connection of an injected peer: no streams, Close succeeds
+// (peer.Manager.DisconnectAll / Connection.Close call it).
+type c16NullConn struct{ dialer bool }
+
+func (c16NullConn) OpenStream(ctx context.Context) (transport.Stream, error) {
+	return nil, errors.New("verif: injected peer has no streams")
+}
+func (c16NullConn) AcceptStream(ctx context.Context) (transport.Stream, error) {
+	<-ctx.Done()
+	return nil, ctx.Err()
+}
+func (c16NullConn) Close() error                           { return nil }
+func (c16NullConn) LocalAddr() net.Addr                    { return &net.UDPAddr{IP: net.IPv4(127, 0, 0, 1)} }
+func (c16NullConn) RemoteAddr() net.Addr                   { return &net.UDPAddr{IP: net.IPv4(127, 0, 0, 1)} }
+func (c c16NullConn) IsDialer() bool                       { return c.dialer }
+func (c16NullConn) TransportType() transport.TransportType { return transport.TransportQUIC }
